@@ -67,8 +67,9 @@ def predicates(rep, seed=0):
             rep.incomplete('pred:' + tag, 'predicate-residue-only', '', 'not found')
             continue
 
-        def factory(ctx):
+        def factory(ctx, name=name):
             s_, _ = contracts.wrapper_summaries(mod, ctx)
+            s_.pop(name, None)       # the predicate under analysis is interpreted (or decided in kernel mode), never summarised
             return s_
 
         def setup(summ, opts):
@@ -86,7 +87,7 @@ def predicates(rep, seed=0):
                                              '%s is exactly the residue test %s (depends on the operands only through their canonical values)' % (tag, text)
                                              if good else '%s is not the residue test %s: paths %r' % (tag, text, [(list(a.values()), r) for a, r in leaves]))
         except (Incomplete, IRError, Sink) as e:
-            if 'outside a contracted kernel' in str(e):
+            if 'outside a contracted kernel' in str(e) or 'data-dependent comparison on field values' in str(e):
                 # the predicate does raw integer arithmetic on the representations: decide it on exact integers instead
                 smod = front.module('avx2', sroa=True)
                 ps = harness.describe(mod, name)
